@@ -5,7 +5,8 @@ import vlib
 from vlib import Broken
 import zonechain as zc
 
-CLASS2SPEC = {"canon": "w_canon", "blockbatch": "w_batch", "head": "w_head", "rollbackbatch": "w_rollback"}
+CLASS2SPEC = {"canon": "w_canon", "blockbatch": "w_batch", "head": "w_head", "rollbackbatch": "w_rollback",
+              "rollbackbatch-without-head": "w_rollback_without_head"}
 
 
 def spec_write_orders(ctx):
@@ -54,8 +55,12 @@ def run(ctx):
             key = (seq.count("w_rollback"), seq.count("w_canon"))
             want = orders.get(key)
             order_checks += 1
+            if want is None and st["kind"] == "append":
+                want = orders.get((0, 1))
+            if want is None and st["kind"] == "reorg":
+                want = orders.get((2, 1))
             if want is None:
-                raise Broken("no TLC behaviour with %s rollbacks/forwards to compare the write order with" % (key,))
+                raise Broken("no TLC behaviour to compare the write order of a %s step with" % st["kind"])
             if seq != want:
                 # the real code issues its consistency-relevant writes in an order the specification does not allow
                 vlib.report(ctx, {"kind": "write-order", "step": st["kind"]}, {"seed": seed, "recorded": seq, "specified": want, "ops": st["ops"]})
